@@ -1390,7 +1390,11 @@ def run(ctx):
         'file-object operation sequences (read/write/seek/tell, append or not); plus every schedule (all completion orders x '
         'all short counts) of a few small read/copy configurations (coverage.exhaustive says which were enumerated '
         'completely); end to end: get/put/copy/file objects over loopback against an SFTPServer subclass that shortens '
-        'reads, fails a chosen block or ends the file early, with client-side reply jitter, and real sparse files. A case '
+        'reads, fails a chosen block or ends the file early, with client-side reply jitter, and real sparse files; the '
+        'recursive driver: get/put/copy -r and mget/mput/mcopy with glob patterns of a tree with nested and empty '
+        'directories, empty files, files at block boundaries, symlinks to a large file, to a directory and upwards, for '
+        'follow_symlinks x preserve x sparse, destination tree compared byte for byte (links as links unless followed), and '
+        'the total_bytes each file copier was given compared with the model (copy_total). A case '
         'is non-trivial when its schedule has >= 2 completions (>= 3 operations for file objects); distinct = distinct '
         '(geometry, schedule shape) tuples')
     ctx.cov['trusted_base'] += [
@@ -1404,6 +1408,9 @@ def run(ctx):
         'correspondence against a fake file object implementing POSIX seek; real holes only in the end-to-end stage',
         'zero-length non-EOF replies and replies longer than requested are outside the theorems (hypothesis 1<=c<=size); '
         'the model is still compared with the code on them',
+        'SFTPClient._copy/_begin_copy/SFTPGlob are modelled only in how total_bytes is chosen (copy_total, theorem '
+        'C12_copy_total); directory walking, globbing and attribute preservation are covered by the tree oracle only; the '
+        'total_bytes observation wraps the private class _SFTPFileCopier and is marked unavailable if that is gone',
         'termination (every honest schedule ends after at most size completions) is observed (no case may get stuck) '
         'but not proved',
         'the copier correspondence accepts either the snapshot model or the repaired-sparse-copy model (c_fix) and '
